@@ -183,6 +183,13 @@ def scan(mod, df_hints=()):
                 obj, err = _resolve(m, ch)
                 if obj is not None and callable(obj):
                     stats['calls_resolved'] += 1
+                    # numpy >= 2: np.array(x, copy=False) no longer means "copy only if needed" but "never copy": it raises ValueError whenever a conversion is required
+                    # (a list, another dtype); np.asarray is the old meaning
+                    if m == 'numpy' and ch == ['array'] and int(importlib.import_module('numpy').__version__.split('.')[0]) >= 2:
+                        for kw in n.keywords:
+                            if kw.arg == 'copy' and isinstance(kw.value, ast.Constant) and kw.value.value is False:
+                                issues.append(Issue(n, 'changed-semantics', 'numpy.array(..., copy=False) raises ValueError under the installed numpy %s whenever the argument needs converting (a list, another element type); '
+                                                    'np.asarray has the old copy-if-needed meaning' % importlib.import_module('numpy').__version__))
                     params = _sig_params(obj)
                     if params is not None:
                         for kw in n.keywords:
